@@ -17,7 +17,7 @@ inductive JT | null | boolean | integer | number | string
 inductive Sch
   | any                                                   -- {}  (also: `format` is an annotation in 2020-12)
   | typ (t : JT) (format : Option String)                 -- {"type": t, "format": …}
-  | utc                                                   -- {"type": "string", "pattern": "^UTC([+-][0-2][0-9]:[0-5][0-9])?$"}
+  | utc                                                   -- {"type": "string", "pattern": <utcPatternSchema of Generated.lean>}; `UtcOk` below is the whole-minute part of it
   | enum (vals : List V) (constIfSingle : Bool)           -- {"enum": […]}; Literal with one value: {"const": v}
   | anyOf (ss : List Sch)
   | arrOf (items : Sch) (unique : Bool)                   -- {"type": "array", "items": …, "uniqueItems": …}
